@@ -314,6 +314,14 @@ func (c *Ctx) checkClassification(r *rule, source, kind string, fields []string)
 		for _, b := range cands[i+1:] {
 			if len(a.residual) == 1 && len(b.residual) == 1 && a.residual[0].cond == b.residual[0].cond && a.residual[0].pol != b.residual[0].pol {
 				r.ok(key, c.ipos(a.app), fmt.Sprintf("every ast.%s element is appended to Task.%s or Task.%s (the two sides of %s)", kind, a.field, b.field, condText(a.residual[0].cond)))
+				if c.splitTests == nil {
+					c.splitTests = map[string]splitTest{}
+				}
+				st := splitTest{cond: a.residual[0].cond, onTrue: a.field, onFalse: b.field, at: a.app}
+				if !a.residual[0].pol {
+					st.onTrue, st.onFalse = b.field, a.field
+				}
+				c.splitTests[source+"/"+kind] = st
 				return
 			}
 		}
@@ -327,6 +335,107 @@ func (c *Ctx) checkClassification(r *rule, source, kind string, fields []string)
 		desc = append(desc, fmt.Sprintf("append to Task.%s at %s only when %s", cd.field, c.ipos(cd.app), strings.Join(gs, " && ")))
 	}
 	r.bad(key, c.ipos(cands[0].app), fmt.Sprintf("an ast.%s element of ast.Task.%s reaches Task.%s only under a further condition: some declarations are silently left out", kind, source, strings.Join(fields, "/")), append(desc, notes...)...)
+}
+
+// splitTest is the one condition that sends a string of a declaration list to one of two Task fields.
+type splitTest struct {
+	cond            ssa.Value
+	onTrue, onFalse string
+	at              *ssa.Call
+}
+
+// starSearch recognises the forms of "the text contains a '*'": strings.Contains(x, "*"), ContainsRune(x, '*'), ContainsAny(x, "*"),
+// and Index/IndexByte/IndexRune/IndexAny(x, '*') compared with 0 or -1. holds is the truth value of cond when a star is present;
+// other is a description of what is searched for instead when the call is a search for something else.
+func starSearch(cond ssa.Value) (holds bool, ok bool, other string) {
+	isStar := func(v ssa.Value) (bool, string) {
+		k, isK := v.(*ssa.Const)
+		if !isK || k.Value == nil {
+			return false, "a value that is not a constant"
+		}
+		switch k.Value.Kind() {
+		case constant.String:
+			if s := constant.StringVal(k.Value); s != "*" {
+				return false, fmt.Sprintf("%q", s)
+			}
+			return true, ""
+		case constant.Int:
+			if n, _ := constant.Int64Val(k.Value); n != '*' {
+				return false, fmt.Sprintf("%q", rune(n))
+			}
+			return true, ""
+		}
+		return false, "a constant of another kind"
+	}
+	switch v := cond.(type) {
+	case *ssa.Call:
+		switch n := calleeName(v.Common()); n {
+		case "strings.Contains", "strings.ContainsRune", "strings.ContainsAny":
+			if len(v.Common().Args) == 2 {
+				if is, what := isStar(v.Common().Args[1]); is {
+					return true, true, ""
+				} else {
+					return false, false, n + " of " + what
+				}
+			}
+		case "strings.HasPrefix", "strings.HasSuffix", "strings.EqualFold", "path/filepath.Match", "path.Match":
+			return false, false, n
+		}
+	case *ssa.UnOp:
+		if v.Op == token.NOT {
+			h, ok, other := starSearch(v.X)
+			return !h, ok, other
+		}
+	case *ssa.BinOp:
+		call, isCall := v.X.(*ssa.Call)
+		k, isK := v.Y.(*ssa.Const)
+		if !isCall || !isK || k.Value == nil || k.Value.Kind() != constant.Int {
+			return false, false, ""
+		}
+		n := calleeName(call.Common())
+		if n != "strings.Index" && n != "strings.IndexByte" && n != "strings.IndexRune" && n != "strings.IndexAny" || len(call.Common().Args) != 2 {
+			return false, false, ""
+		}
+		if is, what := isStar(call.Common().Args[1]); !is {
+			return false, false, n + " of " + what
+		}
+		kv, _ := constant.Int64Val(k.Value)
+		switch {
+		case v.Op == token.GEQ && kv == 0, v.Op == token.GTR && kv == -1, v.Op == token.NEQ && kv == -1:
+			return true, true, ""
+		case v.Op == token.LSS && kv == 0, v.Op == token.LEQ && kv == -1, v.Op == token.EQL && kv == -1:
+			return false, true, ""
+		}
+	}
+	return false, false, ""
+}
+
+func ruleTK5(c *Ctx) *rule {
+	r := &rule{ID: "TK5", Engine: "E2+E3", Floor: 2,
+		Statement: "the one test by which task.New tells a glob from a plain file, for dependencies and for outputs alike, is 'the declared text contains a *': a search for \"*\" (strings.Contains / ContainsRune / ContainsAny / Index...) whose hit side fills the Glob field and whose miss side fills the File field",
+		Necessity: "a glob is, by definition, a dependency or output string containing '*': with any other test a file whose name merely contains another pattern character is expanded as a pattern (matching nothing: the task is never skipped and its output never removed), or a pattern is hashed and removed as if it were one file"}
+	for _, src := range [][3]string{{"Dependencies", "FileDependencies", "GlobDependencies"}, {"Outputs", "FileOutputs", "GlobOutputs"}} {
+		key := fmt.Sprintf("task.New %s file/glob test", src[0])
+		delete(c.splitTests, src[0]+"/NodeString")
+		c.checkClassification(&rule{}, src[0], "NodeString", []string{src[1], src[2]})
+		st, found := c.splitTests[src[0]+"/NodeString"]
+		if !found {
+			r.undecided(key, c.pos(c.fn("task", "New").Pos()), "no single two-sided test separates Task."+src[1]+" from Task."+src[2])
+			continue
+		}
+		holds, ok, other := starSearch(st.cond)
+		switch {
+		case ok && ((holds && st.onTrue == src[2]) || (!holds && st.onFalse == src[2])):
+			r.ok(key, c.ipos(st.at), "a text with a '*' goes to Task."+src[2]+", every other text to Task."+src[1]+" ("+condText(st.cond)+")")
+		case ok:
+			r.bad(key, c.ipos(st.at), "the sides of the test are swapped: a text containing '*' is recorded as a plain file in Task."+src[1])
+		case other != "":
+			r.bad(key, c.ipos(st.at), "globs are told from files by "+other+", not by the presence of '*'")
+		default:
+			r.undecided(key, c.ipos(st.at), "the file/glob test is "+condText(st.cond)+", which the checker does not recognise as a search for '*'")
+		}
+	}
+	return r
 }
 
 func ruleTK1(c *Ctx) *rule {
